@@ -1195,6 +1195,9 @@ func (w *walker) assign(lhs []ast.Expr, rhs []ast.Expr, define bool) {
 					continue
 				}
 				w.env[id.Obj] = t + "#" + strconv.Itoa(i+1)
+				if !define || w.closure != 0 {
+					w.emit("assign", w.lhsName(id)+"="+t+"#"+strconv.Itoa(i+1))
+				}
 				continue
 			}
 			w.emit("assign", w.canon(l)+"="+t+"#"+strconv.Itoa(i+1))
